@@ -812,7 +812,9 @@ impl<'a, T: QueryToRelationTranslator + Copy + Clone> VisitedQueryRelations<'a, 
                     // Build a Relation from set operation
                     Ok(Arc::new(relation_builder.try_build()?))
                 }
-                _ => panic!("We only support set operations over SELECTs"),
+                _ => Err(Error::other(
+                    "Only set operations between two SELECTs are supported (chain them through CTEs)",
+                )),
             },
             _ => todo!(),
         }
